@@ -41,18 +41,19 @@ impl StainingTemplate {
     /// Reads an existing ULD file
     pub fn from_existing(buffer: ByteSpan) -> Option<Self> {
         let mut cursor = Cursor::new(buffer);
-        let header = StmHeader::read(&mut cursor).unwrap();
+        let header = StmHeader::read(&mut cursor).ok()?;
 
         for entry_offset in header.offsets {
-            let offset = entry_offset as i32 * 2 + 8 + 4 * header.entry_count;
+            // entry_count is non-negative here (it was accepted as a vector length)
+            let offset = entry_offset as u64 * 2 + 8 + 4 * header.entry_count as u64;
 
             // read the stm entry
-            cursor.seek(SeekFrom::Start(offset as u64)).ok()?;
+            cursor.seek(SeekFrom::Start(offset)).ok()?;
 
             // read the value offsets
-            let mut ends = [0u16; 5];
+            let mut ends = [0u32; 5];
             for end in &mut ends {
-                *end = cursor.read_le::<u16>().unwrap() * 2;
+                *end = cursor.read_le::<u16>().ok()? as u32 * 2;
             }
 
             /*let new_offset = (offset + 10) as u64;
